@@ -228,6 +228,32 @@ def case_read_after_rst(env):
             outcome(lambda: s.shutdown(env.socket.SHUT_RDWR))]
 
 
+def case_rst_with_unread_data_read_first(env):
+    # data that arrived before the reset stays readable; the error comes
+    # once, after it; then end-of-stream
+    s = env.connect()
+    f = s.makefile('rb', 0)
+    env.server_send(b'abcdef')
+    env.server_rst()
+    return [outcome(lambda: env.select.select([f], [], [], 0)),
+            outcome(lambda: f.read(4)), outcome(lambda: f.read(4)),
+            outcome(lambda: f.read(4)), outcome(lambda: f.read(4)),
+            outcome(lambda: s.send(b'x'))]
+
+
+def case_rst_with_unread_data_send_first(env):
+    # the failed send consumes the pending error: the data is still
+    # readable and is followed by a plain end-of-stream
+    s = env.connect()
+    f = s.makefile('rb', 0)
+    env.server_send(b'abcdef')
+    env.server_rst()
+    return [outcome(lambda: s.send(b'x')), outcome(lambda: s.send(b'y')),
+            outcome(lambda: f.read(4)), outcome(lambda: f.read(4)),
+            outcome(lambda: f.read(4)),
+            outcome(lambda: env.select.select([f], [], [], 0))]
+
+
 def case_select_timeout(env):
     s = env.connect()
     f = s.makefile('rb', 0)
@@ -316,6 +342,8 @@ def case_close_releases_only_with_file(env):
 
 CASES = [case_refused, case_read_data_short, case_read_eof,
          case_read_after_file_close, case_read_after_rst,
+         case_rst_with_unread_data_read_first,
+         case_rst_with_unread_data_send_first,
          case_select_timeout, case_blocked_read_then_shutdown,
          case_blocked_select_then_shutdown,
          case_blocked_read_then_shutdown_wr, case_send_after_shutdown,
